@@ -525,12 +525,31 @@ impl<'r, 'a> Collector<'r, 'a> {
         Some((lead, t))
     }
 
-    fn loop_native(&mut self, iter_expr: Option<&syn::Expr>, body: &syn::Block) {
+    fn loop_native(&mut self, iter_expr: Option<&syn::Expr>, body: &syn::Block, for_start: Option<usize>) {
         let key = format!("{}", self.rw.native_loops);
         self.rw.native_loops += 1;
         let (iter, hdr, bs, be) = self.rw.loop_parts(&key);
         let wrap = self.rw.loops.iter().find(|l| l.key == key).and_then(|l| l.wrap.clone());
-        if let Some(w) = wrap {
+        let bind = self.rw.loops.iter().find(|l| l.key == key).and_then(|l| l.bind.clone());
+        if let (Some(w), Some(b), Some(e), Some(fs)) = (&wrap, &bind, iter_expr, for_start) {
+            // R8 with a name: `let B = W(&(EXPR)); let ghost B_g = B@; for .. in B`
+            let plain = match e {
+                syn::Expr::Path(_) => true,
+                syn::Expr::Reference(r) => matches!(&*r.expr, syn::Expr::Path(_)),
+                _ => false,
+            };
+            if !plain {
+                die("unsupported", &format!("{}: bind= side condition: the iterated expression of loop {key} is not a plain variable", self.rw.fn_path));
+            }
+            let r = rng(e);
+            let et = self.rw.text(e).to_string();
+            self.edits.push(Edit { range: fs..fs, text: format!("let {b} = {w}(&({et})); let ghost {b}_g = {b}@;\n"), prio: -7 });
+            self.edits.push(Edit { range: r.clone(), text: b.clone(), prio: 0 });
+            self.rw.log.push(format!("R8 loop {key}: iterate over {w}(..) bound to {b}"));
+            if !iter.is_empty() {
+                self.edits.push(Edit { range: r.start..r.start, text: iter.clone(), prio: -1 });
+            }
+        } else if let Some(w) = wrap {
             match iter_expr {
                 Some(e) => {
                     let r = rng(e);
@@ -541,7 +560,7 @@ impl<'r, 'a> Collector<'r, 'a> {
                 None => die("malformed-unit", &format!("{}: wrap= on a non-for loop {key}", self.rw.fn_path)),
             }
         }
-        if !iter.is_empty() {
+        if !iter.is_empty() && !(bind.is_some() && for_start.is_some()) {
             match iter_expr {
                 Some(e) => {
                     let s = rng(e).start;
@@ -626,7 +645,7 @@ impl<'ast, 'r, 'a> Visit<'ast> for Collector<'r, 'a> {
                 self.rw.log.push(format!("R30 let {name} = {m}.entry({k}).or_default() -> __entry_or_default; {name}.insert(..) -> __entry_insert"));
                 self.edits.push(Edit { range: rng(s), text: format!("__entry_or_default(&mut {m}, {k});"), prio: 0 });
             }
-            syn::Stmt::Local(l) if self.rw.on("R3") || self.rw.on("R16") || self.rw.on("R3f") || self.rw.on("R17") || self.rw.on("R26") => {
+            syn::Stmt::Local(l) if self.rw.on("R3") || self.rw.on("R16") || self.rw.on("R3f") || self.rw.on("R17") || self.rw.on("R26") || self.rw.on("R33") => {
                 if self.rw.on("R16") {
                     if let Some(t) = self.try_r16(l) {
                         self.edits.push(Edit { range: rng(s), text: t, prio: 0 });
@@ -641,6 +660,12 @@ impl<'ast, 'r, 'a> Visit<'ast> for Collector<'r, 'a> {
                 }
                 if self.rw.on("R26") {
                     if let Some(t) = self.try_r26(l) {
+                        self.edits.push(Edit { range: rng(s), text: t, prio: 0 });
+                        return;
+                    }
+                }
+                if self.rw.on("R33") {
+                    if let Some(t) = self.try_r33(l) {
                         self.edits.push(Edit { range: rng(s), text: t, prio: 0 });
                         return;
                     }
@@ -821,13 +846,38 @@ impl<'ast, 'r, 'a> Visit<'ast> for Collector<'r, 'a> {
                 self.edits.push(Edit { range: rng(e), text: format!("__entry_or_insert_counter(&mut {map}, {k}, &mut {c_name})"), prio: 0 });
             }
             // R25: M.retain(|k, _| !N.contains_key(k))  ->  __map_retain_not_in(&mut M, &N)   (closure matched literally)
-            syn::Expr::MethodCall(m) if m.method == "retain" && self.rw.on("R25") && m.args.len() == 1 && matches!(m.args[0], syn::Expr::Closure(_)) => {
+            syn::Expr::MethodCall(m) if m.method == "retain" && (self.rw.on("R25") || self.rw.on("R34")) && m.args.len() == 1 && matches!(m.args[0], syn::Expr::Closure(_)) => {
                 let cl = match &m.args[0] {
                     syn::Expr::Closure(c) => c,
                     _ => unreachable!(),
                 };
                 let body = norm(self.rw.text(&*cl.body));
                 let params: Vec<String> = cl.inputs.iter().map(|p| norm(self.rw.text(p))).collect();
+                // R34: V.retain(|x| G.get(x).map(|c| !c.is_empty()).unwrap_or(true))  ->  __vec_retain_nonleaf(&mut V, &G)
+                if params.len() == 1 && self.rw.on("R34") {
+                    let tail = ".map(|children|!children.is_empty()).unwrap_or(true)";
+                    let head_end = format!(".get({})", params[0]);
+                    let mut body = body.replace(' ', "");
+                    if body.starts_with('{') && body.ends_with('}') {
+                        body = body[1..body.len() - 1].to_string();
+                    }
+                    if body.ends_with(tail) && body[..body.len() - tail.len()].ends_with(&head_end) {
+                        let g = body[..body.len() - tail.len() - head_end.len()].to_string();
+                        let v = self.render(&m.receiver);
+                        self.rw.log.push("R34 .retain(|x| G.get(x).map(|c| !c.is_empty()).unwrap_or(true)) -> __vec_retain_nonleaf".to_string());
+                        self.edits.push(Edit { range: rng(e), text: format!("__vec_retain_nonleaf(&mut {v}, &{g})"), prio: 0 });
+                        return;
+                    }
+                    die("unsupported", &format!("{}: R34 side condition: retain closure is not `|x| G.get(x).map(|children| !children.is_empty()).unwrap_or(true)`", self.rw.fn_path));
+                }
+                // positive form: M.retain(|k, _| N.contains_key(k))  ->  __map_retain_in(&mut M, &N)
+                if params.len() == 2 && params[1] == "_" && !body.starts_with('!') && body.ends_with(&format!(".contains_key({})", params[0])) {
+                    let n = body[..body.len() - format!(".contains_key({})", params[0]).len()].to_string();
+                    let map = self.render(&m.receiver);
+                    self.rw.log.push("R25 .retain(|k, _| N.contains_key(k)) -> __map_retain_in".to_string());
+                    self.edits.push(Edit { range: rng(e), text: format!("__map_retain_in(&mut {map}, &{n})"), prio: 0 });
+                    return;
+                }
                 let ok = params.len() == 2 && params[1] == "_" && body.starts_with('!') && body.ends_with(&format!(".contains_key({})", params[0]));
                 if !ok {
                     die("unsupported", &format!("{}: R25 side condition: retain closure is not `|k, _| !N.contains_key(k)`", self.rw.fn_path));
@@ -1014,15 +1064,15 @@ impl<'ast, 'r, 'a> Visit<'ast> for Collector<'r, 'a> {
                         }
                     }
                 }
-                self.loop_native(Some(&f.expr), &f.body);
+                self.loop_native(Some(&f.expr), &f.body, Some(rng(e).start));
                 visit::visit_expr(self, e);
             }
             syn::Expr::While(w) => {
-                self.loop_native(None, &w.body);
+                self.loop_native(None, &w.body, None);
                 visit::visit_expr(self, e);
             }
             syn::Expr::Loop(l) => {
-                self.loop_native(None, &l.body);
+                self.loop_native(None, &l.body, None);
                 visit::visit_expr(self, e);
             }
             _ => visit::visit_expr(self, e),
@@ -1178,6 +1228,39 @@ impl<'r, 'a> Collector<'r, 'a> {
         let vec_ty = ty.unwrap_or_else(|| "UstrMap<_>".to_string());
         self.rw.log.push(format!("R26 let {name} = M.iter()[.filter(..)].map(..).collect() into a UstrMap -> loop {key}"));
         Some(format!("let mut {name}: {vec_ty} = UstrMap::default(); for __e in {iter}__map_entries(&{m}) {hdr}{{ {bs}{guard}{{ let {pat} = __e; {name}.insert({k}, {v}); }} {be}}}"))
+    }
+
+    /// R33: `let x: Vec<Ustr> = M.keys().filter(|p| B).copied().collect();`
+    ///  -> `let __keys_x = __map_key_refs(&M); let mut x: Vec<Ustr> = Vec::new(); for p in __keys_x.iter() { if B { x.push(**p); } }`
+    /// (p has the type `&&Ustr` in both forms; the keys come in the map's own, unspecified, order)
+    fn try_r33(&mut self, l: &syn::Local) -> Option<String> {
+        let init = l.init.as_ref()?;
+        if init.diverge.is_some() {
+            return None;
+        }
+        let (name, ty) = self.local_name_ty(l)?;
+        let coll = is_method(&init.expr, "collect")?;
+        let copied = is_method(&coll.receiver, "copied")?;
+        let flt = is_method(&copied.receiver, "filter")?;
+        let keys = is_method(&flt.receiver, "keys")?;
+        let cl = match flt.args.get(0) {
+            Some(syn::Expr::Closure(c)) => c,
+            _ => return None,
+        };
+        if cl.capture.is_some() || cl.inputs.len() != 1 || !matches!(cl.inputs[0], syn::Pat::Ident(_)) || closure_has_control_flow(&cl.body) {
+            die("unsupported", &format!("{}: R33 side condition violated (move closure / pattern parameter / control flow in body)", self.rw.fn_path));
+        }
+        let vec_ty = ty.unwrap_or_else(|| "Vec<_>".to_string());
+        if !vec_ty.replace(' ', "").starts_with("Vec<") {
+            die("unsupported", &format!("{}: R33 side condition: declared type `{vec_ty}` is not Vec<_>", self.rw.fn_path));
+        }
+        let key = self.rw.next_key("R33");
+        let (iter, hdr, bs, be) = self.rw.loop_parts(&key);
+        let pat = self.rw.text(&cl.inputs[0]).to_string();
+        let map = self.render(&keys.receiver);
+        let body = self.render(&cl.body);
+        self.rw.log.push(format!("R33 let {name} = M.keys().filter(..).copied().collect() -> loop {key} over __map_key_refs"));
+        Some(format!("let __keys_{name} = __map_key_refs(&{map}); let mut {name}: {vec_ty} = Vec::new(); for {pat} in {iter}__keys_{name}.iter() {hdr}{{ {bs}if {body} {{ {name}.push(**{pat}); }} {be}}}"))
     }
 
     /// R3f: `let x: Vec<T> = ITER.filter(CL).cloned().collect();`
